@@ -131,6 +131,7 @@ type World struct {
 	orc      *oracle
 
 	failNextMirrorCommit bool
+	signedHeaders        []signedHeader // sign-subtree headers that were answered with signatures
 	failUploadAt         int // auto mode: the n-th upload from now fails (0 = none)
 	shadow     *incarnation // a second live witness process (C14)
 	shadowUsed bool
